@@ -560,10 +560,13 @@ type Env struct {
 var ExprTexts = []string{
 	"$.a", "$.a.b", "$..b", "$.l[0]", "$.l[-1]", "$.l[1:3]", "$.l[*]", "$['a','c']", "$.l[?(@.x > 1)]",
 	"$.l[?(@.x == 2)].y", "$.*", "$.l[?(@.y)].x", "@.a.b", "$.o.p.q", "$.l[0,2]", "$..x",
+	// filter operands that yield more than one value
+	"$.l[?(@.vals[*] == 2)]", "$.l[?(@.vals[*] > 1)].x", "$.l[?(@.vals[0,1] == 3)].y", "$.l[?(@..n == 1)]",
 }
 
 // ScriptTexts are the shared scripts.
-var ScriptTexts = []string{"(@.x > 1)", "(@.x == 2 || @.y == 'b')", "(@.y in ['a','b'])", "(@.x < 3 && @.x > 0)", "(length(@.y) == 1)"}
+var ScriptTexts = []string{"(@.x > 1)", "(@.x == 2 || @.y == 'b')", "(@.y in ['a','b'])", "(@.x < 3 && @.x > 0)", "(length(@.y) == 1)",
+	"(@.vals[*] == 2)", "(@.vals[*] < 3 && @.x > 0)", "(@..n == 1)"}
 
 // NewEnv parses the shared expressions and registers the struct types with a recomposer.
 func NewEnv() *Env {
@@ -583,7 +586,16 @@ func NewEnv() *Env {
 	o3.Sort = true
 	o3.OmitNil = true
 	o3.CreateKey = "^"
-	e.Opts = []*ojg.Options{&o1, &o2, &o3}
+	// TimeMap with an empty CreateKey, and with the full type path: time values are written as maps
+	o4 := ojg.DefaultOptions
+	o4.Sort = true
+	o4.TimeMap = true
+	o5 := ojg.GoOptions
+	o5.Sort = true
+	o5.TimeMap = true
+	o5.FullTypePath = true
+	o5.CreateKey = "^"
+	e.Opts = []*ojg.Options{&o1, &o2, &o3, &o4, &o5}
 	// RBoard alone: its element types (array-of-struct included) come with it
 	rec, err := alt.NewRecomposer("^", map[any]alt.RecomposeFunc{&RInner{}: nil, &RTagged{}: nil, &RBoard{}: nil, &RNest{}: nil})
 	if err != nil {
@@ -738,6 +750,17 @@ func (s *poolSubject) Exec(c *Call) (o Outcome) {
 		case "oj.JSON.opt":
 			out := oj.JSON(c.Data.Build(), s.env.Opts[c.Path%len(s.env.Opts)])
 			o.Text, o.Live = "S="+out, []any{out}
+		case "oj.Marshal.opt":
+			b, err := oj.Marshal(c.Data.Build(), s.env.Opts[c.Path%len(s.env.Opts)])
+			o.Text, o.Live = "B="+string(b)+" E="+errText(err), []any{b}
+		case "oj.Write.opt":
+			sk := newSink(c)
+			err := oj.Write(sk, c.Data.Build(), s.env.Opts[c.Path%len(s.env.Opts)])
+			o.Text = "W=" + sk.buf.String() + " E=" + errText(err)
+		case "sen.Write.opt":
+			sk := newSink(c)
+			err := sen.Write(sk, c.Data.Build(), s.env.Opts[c.Path%len(s.env.Opts)])
+			o.Text = "W=" + sk.buf.String() + " E=" + errText(err)
 		case "sen.String.opt":
 			out := sen.String(c.Data.Build(), s.env.Opts[c.Path%len(s.env.Opts)])
 			o.Text, o.Live = "S="+out, []any{out}
@@ -793,6 +816,21 @@ func (s *poolSubject) Exec(c *Call) (o Outcome) {
 			err := oj.TokenizeLoad(newChunkReader(buf, c), h)
 			o.Text = "T=" + h.trace.String() + " E=" + errText(err)
 			o.Live = h.live
+		case "sen.MustParse":
+			v := sen.MustParse(buf)
+			o.Text, o.Live = "R="+Render(v), []any{v}
+		case "sen.ParseReader":
+			v, err := sen.ParseReader(newChunkReader(buf, c))
+			o.Text, o.Live = "R="+Render(v)+" E="+errText(err), []any{v}
+		case "sen.MustParseReader":
+			v := sen.MustParseReader(newChunkReader(buf, c))
+			o.Text, o.Live = "R="+Render(v), []any{v}
+		case "oj.MustLoad":
+			v := oj.MustLoad(newChunkReader(buf, c))
+			o.Text, o.Live = "R="+Render(v), []any{v}
+		case "oj.MustParseString":
+			v := oj.MustParseString(string(buf))
+			o.Text, o.Live = "R="+Render(v), []any{v}
 		case "sen.Parse":
 			v, err := sen.Parse(buf)
 			o.Text = "R=" + Render(v) + " E=" + errText(err)
